@@ -67,7 +67,22 @@ def seeded_block():
     rows.append('%d confirmed seeded changes, %d detected by the quick tier of the property they were written against.' % (n, det))
     return '\n'.join(rows)
 
-blocks = {'props': props_block, 'seeded': seeded_block}
+def fixed_block():
+    k = json.load(open(os.path.join(V, 'known_findings.json')))
+    rows = ['| commit | property | what failed (input / call site) |', '|--------|----------|----------------------------------|']
+    for f in k.get('fixed', []):
+        m = re.match(r'fixed: property=(\S+) (\S+) (.*)', f)
+        if m:
+            rows.append('| %s | %s | %s |' % (m.group(2), m.group(1), m.group(3).replace('|', '\\|')))
+    rows.append('')
+    rows.append('Recorded, not repaired (`findings`; the check prints `KNOWN-FINDING` and exits 0 for exactly these witnesses):')
+    rows.append('')
+    for f in k.get('findings', []):
+        rows.append('* `%s` (%s): %s' % (f['id'], f['property'], f['what']))
+    return '\n'.join(rows)
+
+
+blocks = {'props': props_block, 'seeded': seeded_block, 'fixed': fixed_block}
 p = os.path.join(V, 'DESIGN.md')
 s = open(p).read()
 for k, f in blocks.items():
